@@ -88,14 +88,17 @@ def run_property(ctx, pid, n_quick=400, n_thorough=6000, seg_p=0.5, fields=None,
             if mine:
                 divergences.append({"scenario": {"seed": s["seed"], "index": s["index"], "cfg": s["cfg"]}, "ops_until_divergence": ops[:d["step"]],
                                     "fields": d["fields"], "impl": d.get("impl"), "model": d.get("model")})
-        for prop, what, line in s["violations"]:
+        for prop, what, line, stepno in s["violations"]:
             sig = None
             if prop == pid:
                 sig = "%s:%s" % (pid, line.split()[0] if line else "init")
+            elif pid == "C10" and prop in ("C08", "C09") and any(o.startswith(("EN ", "DIS ")) for o in ops[:max(stepno, 0)]):
+                # a value that is not the reference value although its feature is enabled, in a history with switches
+                sig = "C10:not-fresh-after-switch"
             elif pid == "C10" and prop in ("C01", "C02", "C03", "C04", "C05", "C06", "C11"):
                 # ids recomputed in mid-session (enable_features(['track_id'/'lineage_id']) on an enabled
                 # feature renumbers them) and a later undo / redo re-applies ids of the old numbering
-                k = ops.index(line) if line in ops else len(ops)
+                k = stepno - 1 if stepno >= 1 else len(ops)
                 ren = [i for i, o in enumerate(ops[:k + 1]) if o.startswith("EN ") and set(o.split()[1].split(",")) & {"2", "3"}
                        and s["obs"][i + 1]["ret"] == 0]
                 undone = [i for i, o in enumerate(ops[:k + 1]) if o in ("U", "R") and ren and i > ren[0]]
@@ -134,5 +137,5 @@ def replay(ctx, payload):
     if not sc:
         return {"error": "replay file has no scenario"}
     r = _one((sc["seed"], sc["index"], sc.get("seg_p", 0.5), None, sc.get("toggles", 0.0)))
-    mine = [v for v in r.get("violations", []) if v[0] == ctx.pid]
+    mine = [v for v in r.get("violations", []) if v[0] == ctx.pid or (ctx.pid == "C10" and v[0] in ("C01", "C02", "C03", "C04", "C05", "C06", "C11"))]
     return {"violation": bool(mine), "violations": mine[:5], "ops": ops_of(r) if "lines" in r else None}
